@@ -462,7 +462,7 @@ def _coq_bytes(hexs):
     return "[" + ";".join(str(b) for b in bytes.fromhex(hexs)) + "]"
 
 def _model_scenario(rng):
-    """Put / Get / Remove only, keys of bucket 7, every thread runs to completion inside the schedule: replayable on Conc2."""
+    """Put / Get / Has / GetSize / Remove only, keys of bucket 7, every thread runs to completion inside the schedule: replayable on Conc2."""
     keys = rng.sample(CKEYS, rng.randint(2, 4))
     vals = ["61", "6262", "636363", "-", "6464646464646464"]
     setup = []
@@ -475,7 +475,7 @@ def _model_scenario(rng):
             setup.append("setup put %s %s" % (rng.choice(keys), rng.choice(vals)))
     writers, th = set(), []
     for i in range(rng.randint(2, 4)):
-        kind = rng.choice(("put", "put", "get", "get", "remove"))
+        kind = rng.choice(("put", "put", "get", "get", "remove", "has", "size"))
         k = rng.choice(keys)
         if kind in ("put", "remove"):
             cand = [x for x in keys if x not in writers]
@@ -511,6 +511,10 @@ def _model_case(txt, r):
                 calls.append("QGet %s" % _coq_bytes(f[3]))
             elif f[2] == "remove":
                 calls.append("QRemove %s" % _coq_bytes(f[3]))
+            elif f[2] == "has":
+                calls.append("QHas %s" % _coq_bytes(f[3]))
+            elif f[2] == "size":
+                calls.append("QSize %s" % _coq_bytes(f[3]))
             else:
                 return None
     if r["stuck"] or r.get("quiet_timeouts", 1) or r.get("unfinished_at_free_run", 1):
@@ -532,8 +536,10 @@ def _model_case(txt, r):
             exp.append({"ROk": "ROk", "RExists": "RExists"}.get(t["res"], "RErr"))
         elif t["op"] == "get":
             exp.append("RErr" if t["res"] != "ROk" else "RVal %s %s" % ("true" if t["found"] else "false", _coq_bytes(t["out"]) if t["found"] else "[]"))
-        elif t["op"] == "remove":
+        elif t["op"] in ("remove", "has"):
             exp.append("RErr" if t["res"] != "ROk" else "RBool %s" % ("true" if t["found"] else "false"))
+        elif t["op"] == "size":
+            exp.append("RErr" if t["res"] != "ROk" else "RSize %s %s" % ("true" if t["found"] else "false", t["out"] or "0"))
     return "  ([%s],\n   [%s],\n   [%s]%%nat,\n   [%s])" % ("; ".join(setup), "; ".join(calls), "; ".join(map(str, sched)), "; ".join(exp))
 
 def _conc_scenarios(rng, n, gc):
